@@ -1184,9 +1184,15 @@ def confirm(mods, rep):
 
 def run(ctx):
     mods = env.import_cirq(('cirq_google', 'cirq_ionq', 'cirq_aqt', 'cirq_pasqal'))
-    ctx.rule = ('compile: per target x input kind (random 1-3 qubit MatrixGates, library gates of the shared vocabulary, already-native operations, '
-                'no-compile tagged native operations with tags_to_ignore, CircuitOperations incl. repetitions/qubit maps/deep), 1-3 qubits, 2-7 operations; '
-                'non-trivial = at least 2 input operations; distinct by (target, circuit JSON)')
+    ctx.rule = ('compile: 18 target configurations x input kind (random 1-3 qubit MatrixGates, library gates of the shared vocabulary, already-native '
+                'operations, no-compile tagged native operations with tags_to_ignore, CircuitOperations incl. repetitions / qubit maps / deep), 1-3 qubits, '
+                '2-7 operations, max_num_passes 1 or None; non-trivial = at least 2 input operations; distinct by (target, circuit JSON). '
+                'membership: ~400 gates/operations (subclass instances, exponents modulo the period, tags, CircuitOperations, gate-less operations) x '
+                '25 gatesets and one random family each; both answers occur. route: line/ring/grid/tree/tree+chords graphs with 2-9 nodes, 35% directed, '
+                'hard-coded bijective placements, LineInitialMapper and the default mapper, lookahead 1/2/8, 2-12 one- and two-qubit operations, tags, '
+                'CircuitOperations, terminal measurements in 25%; non-trivial = at least one inserted swap; the A.6 relation for measurement-free cases on <= 5 nodes. '
+                'mapping_manager: random connected placements and swap sequences. device: generated GridDevice specs (qubits, pairs, gatesets with tagged and '
+                'integer-power families), AQT, Pasqal (plain and virtual with a control radius), IonQ API devices x 40 operations each on and off the device.')
     ctx.assumptions += ['float tolerance 2^-20 (~1e-6) for unitaries up to global phase', 'operations enter the model through their own cirq.unitary (C03/C04 tie those to the documented matrices)']
     ctx.set_obligations(coq.compile_props('C07'))
     n = 1 if ctx.tier == 'quick' else 10
